@@ -336,6 +336,25 @@ func TestVerifC06(t *testing.T) {
 			off := uintptr(r.Intn(4096))
 			cr2 = uint64(p.va + off)
 			regs := gate.Registers{Info: uint64(r.PickInt([]int{0, 1, 2, 3, 4, 8, 16, 7, 31})), RIP: r.U64()}
+			// the saved registers describe the interrupted code, not the fault: none of them decides the outcome.
+			// Half of the faults come with registers related to the fault address (a push just below the stack
+			// pointer, an access through a register that holds the address, the next instruction on the page).
+			switch r.Intn(8) {
+			case 0:
+				regs.RSP = cr2 + uint64(r.PickInt([]int{8, 16, 128, 4096}))
+			case 1:
+				regs.RSP, regs.RBP = cr2, cr2+8
+			case 2:
+				regs.RSP = cr2 - uint64(r.PickInt([]int{8, 4096}))
+			case 3:
+				regs.RAX, regs.RDI, regs.RSI = cr2, cr2, cr2&^4095
+				regs.RSP = r.U64()
+			case 4:
+				regs.RIP = cr2
+				regs.RSP = r.U64() &^ 15
+			default:
+				regs.RSP, regs.RBP, regs.RFlags = r.U64(), r.U64(), r.U64()
+			}
 			m.flushLog = m.flushLog[:0]
 			m.allocLog = m.allocLog[:0]
 			fp = fp.U64(entryBefore & ^vmPhysMask).Int(inj).Int(mode)
